@@ -196,21 +196,35 @@ def run_unit(unit, rec):
         rec.trans()
         try:
             X, Bp = _call(B.make_est(spec), proc, rows[r : r + 1], Wp[r : r + 1], 1, okw, use_W, L1=(None if L1row is None else L1row[r : r + 1]))
-            ref[r] = (X[0], Bp[0])
+            ref[(r, r)] = (X[0], Bp[0])
         except Exception as e:  # noqa
             _v(rec, "a", dict(base, batch="reference(bs=1,n=1)", **exc_sig(e)), "fitting a single row with batch size 1 raised %r" % (e,), dict(row=r),
                script=_script(spec, proc, rows[r : r + 1], Wp[r : r + 1], 1, okw, use_W))
             rec.outcome("reference-exception")
             return
+    def get_ref(r, wi):
+        # reference of palette row r fitted alone under the weight row wi
+        if (r, wi) not in ref:
+            rec.trans()
+            Xr, Br = _call(B.make_est(spec), proc, rows[r : r + 1], Wp[wi : wi + 1], 1, okw, use_W)
+            ref[(r, wi)] = (Xr[0], Br[0])
+        return ref[(r, wi)]
+
     # all sequences starting with `first`
     for length in range(1, L + 1):
-        for tail in itertools.product(range(4), repeat=length - 1):
+        for tail, wmode in itertools.product(itertools.product(range(4), repeat=length - 1), ("row", "position")):
             seq = (first,) + tail
             nS = len(seq)
+            widx = list(seq)
+            if wmode == "position":
+                # a repeated target row under DIFFERENT per-sample weights (the weight row depends on the position, not on the target)
+                if not (use_W is True and proc in ("gaussian", "poisson") and any(seq[i] == seq[i + 1] for i in range(nS - 1))):
+                    continue
+                widx = [(r + i) % 4 for i, r in enumerate(seq)]
             second = unit.get("second")
             if second is not None and ((second == -1) != (nS == 1) or (nS > 1 and tail[0] != second)):
                 continue
-            Bt, Wt = rows[list(seq)], Wp[list(seq)]
+            Bt, Wt = rows[list(seq)], Wp[widx]
             bs_menu = list(range(1, L + 3)) + ["full", "total", None, "omit"]
             if proc == "excitation" and unit["tier"] == "quick":
                 bs_menu = [1, 2, 3, "full", None]
@@ -228,7 +242,7 @@ def run_unit(unit, rec):
                 eff = nS if bs in ("full", "total") else (1 if bs in (None, "omit") else bs)
                 bcls = "bs=1" if eff == 1 else ("bs>n" if eff > nS else ("bs|n" if nS % eff == 0 else "bs-not-dividing-n"))
                 sig = dict(base, batch=bcls, layout=layout)
-                case = dict(seq=list(seq), batch_size=bs, layout=layout)
+                case = dict(seq=list(seq), batch_size=bs, layout=layout, weight_rows=widx)
                 rec.path()
                 rec.trans()
                 if _verif:
@@ -241,7 +255,7 @@ def run_unit(unit, rec):
                     rec.outcome("%s/exception" % bcls)
                     continue
                 if nS > 1 or eff != 1:
-                    rec.distinct((cfg, proc, sol, seq, str(bs), layout))
+                    rec.distinct((cfg, proc, sol, seq, str(bs), layout, wmode))
                 # batch-event model vs hook log (coverage + localisation)
                 if _verif:
                     ev = [e for e in _verif.drain() if e.get("kind") == "solve" and e.get("n_samples") == nS]
@@ -261,13 +275,13 @@ def run_unit(unit, rec):
                     continue
                 bad = None
                 for i, r in enumerate(seq):
-                    dB = float(np.max(np.abs(Bp[i] - ref[r][1])))
+                    dB = float(np.max(np.abs(Bp[i] - get_ref(r, widx[i])[1])))
                     rec.stat_max("max_dev_pred_%s_%s" % (proc, sol), dB)
                     if dB > tol:
                         bad = ("b", "row %d of the result (palette row %d) has predicted capture %.4g away from that row fitted alone" % (i, r, dB), i)
                         break
                     if unique_x:
-                        dX = float(np.max(np.abs(X[i] - ref[r][0])))
+                        dX = float(np.max(np.abs(X[i] - get_ref(r, widx[i])[0])))
                         rec.stat_max("max_dev_X_%s_%s" % (proc, sol), dX)
                         if dX > 5 * tol:
                             bad = ("c", "row %d of the result (palette row %d) has intensities %.4g away from that row fitted alone" % (i, r, dX), i)
@@ -275,5 +289,5 @@ def run_unit(unit, rec):
                 rec.outcome("%s/%s" % (bcls, "same" if bad is None else "differs"))
                 if bad:
                     _v(rec, bad[0], dict(sig, what="row-result"), bad[1], dict(case, row=bad[2]), observed=dict(X=X, B_pred=Bp),
-                       expected=dict(rows=[ref[r][0] for r in seq], preds=[ref[r][1] for r in seq]), script=_script(spec, proc, Bt, Wt, bs, okw, use_W, L1=(None if L1row is None else L1row[list(seq)])))
+                       expected=dict(rows=[get_ref(r, wi)[0] for r, wi in zip(seq, widx)], preds=[get_ref(r, wi)[1] for r, wi in zip(seq, widx)]), script=_script(spec, proc, Bt, Wt, bs, okw, use_W, L1=(None if L1row is None else L1row[list(seq)])))
     rec.sample(dict(config=cfg, procedure=proc, solver=sol, first_row=rows[first], L=L), cap=1)
